@@ -193,8 +193,14 @@ SizeInvP(m2) == \A a \in 1..Len(m2.heap) : Len(m2.heap[a].items) <= Bound
 ListedP(m2) == \A i \in 1..Len(m2.results) :
                   ("listed" \in DOMAIN Case.calls[i] /\ Len(Case.calls[i].ast) = 0 /\ i = 1)
                   => m2.results[i].looked \subseteq ({Case.calls[i].listed[j] : j \in 1..Len(Case.calls[i].listed)} \cup ImplicitNames)
+\* C08: every number token of a call's text carries exactly the written decimal value
+LitOk(lit) == LET d == DecFromLiteral(lit.text) IN
+              lit.v.t = "dec" /\ lit.v.sign = d.sign /\ lit.v.digs = d.digs /\ lit.v.exp = d.exp
+LiteralsP(m2) == \A i \in 1..Len(m2.results) :
+                  "lits" \in DOMAIN Case.calls[i] => \A j \in 1..Len(Case.calls[i].lits) : LitOk(Case.calls[i].lits[j])
 PropViolation(m1, m2) ==
     IF ~Input.props THEN ""
+    ELSE IF ~LiteralsP(m2) THEN "C08 LiteralExact: a number token does not carry its written decimal value"
     ELSE IF ~ListedP(m2) THEN "C18 LookedListed: a name requested from the host is not reported by list_names"
     ELSE IF ~BudgetInvP(m2) THEN "C01 BudgetInv: a VM record was charged beyond its budget"
     ELSE IF ~LimitExactP(m1, m2) THEN "C01 LimitExact"
